@@ -249,14 +249,14 @@ def _factory(ctx) -> None:
 
 def run(ctx) -> None:
     ctx.explanation = EXPLANATION
-    _duration_new(ctx)
-    _abs_new(ctx)
-    _digits(ctx)
-    _factory(ctx)
+    ctx.step(_duration_new, ctx)
+    ctx.step(_abs_new, ctx)
+    ctx.step(_digits, ctx)
+    ctx.step(_factory, ctx)
     ctx.expect_min("FACTORY.forward", 9)
-    C05._totals(ctx)
+    ctx.step(C05._totals, ctx)
     from . import C14
-    C14._duration(ctx)          # 'rebuilding a Duration from its own components reproduces it': the component tuples of copy/pickle
+    ctx.step(C14._duration, ctx)          # 'rebuilding a Duration from its own components reproduces it': the component tuples of copy/pickle
     ctx.expect_min("DIVMOD", 15)
     ctx.expect_min("RADIX", 7)
     ctx.expect_min("UNITS", 8)
